@@ -287,7 +287,8 @@ static bool unitsCycle(const ModelPtr &m)
         auto u = m->units(i);
         for (size_t k = 0; k < u->unitCount(); ++k) {
             std::string ref = u->unitAttributeReference(k);
-            if (ref.empty() || !m->hasUnits(ref)) {
+            // (also the empty name: the Validator follows it, Model::hasImports does not)
+            if (!m->hasUnits(ref)) {
                 continue;
             }
             // Model::units(name) is the first units with that name
